@@ -157,7 +157,7 @@ def gen_read_bytes(rng, side):
     if rng.chance(1, 5):
         p = spoil(rng, p)
     it = shuffle(rng, items(p))
-    m = rng.below(24)
+    m = rng.below(27)
     enc = [tlv(i, v) for (i, v) in it]
     if m < 7 or not it:
         pass
@@ -200,6 +200,15 @@ def gen_read_bytes(rng, side):
         out[j] = rng.choice([0, 1, 0x40, 0x80, 0xc0, 0xff, (out[j] + 1) % 256])
     elif m == 23:
         out += rng.bytes(rng.range(1, 5))
+    elif m >= 24:
+        # an unknown / reserved (grease) parameter whose declared length overruns the input, at the end or inside
+        v = rng.bytes(rng.range(0, 6))
+        bad = tlv(rng.choice([27, 58, 0x21, 31 * rng.below(1 << 40) + 27, 17]), v, len(v) + rng.choice([1, 2, 5, 60, 1000]))
+        if m == 24 or not enc:
+            out = out + bad
+        else:
+            k = rng.below(len(enc) + 1)
+            out = [x for e in enc[:k] for x in e] + bad + [x for e in enc[k:] for x in e][:rng.below(4)]
     return out
 
 
